@@ -68,6 +68,8 @@ pub struct Scn {
     pub driver_own_error: bool,
     /// client: one more thread drops the last SendRequest (H3_NO_ERROR)
     pub dropper: bool,
+    /// server: the application gives the connection up right after the race - the driver is dropped, not polled again
+    pub drop_driver: bool,
 }
 
 fn raise_code(r: Raise) -> u64 {
@@ -109,7 +111,7 @@ fn poll_driver(d: &mut DriverObj, cx: &mut Context<'_>) -> Poll<ConnInfo> {
 }
 
 fn scn_json(s: &Scn) -> Value {
-    json!({"role": if s.server { "server" } else { "client" }, "driver_polled_before": s.driver_polled_before, "streams": s.streams.iter().map(|r| format!("{r:?}")).collect::<Vec<_>>(), "transport_close": s.transport_close, "driver_own_error": s.driver_own_error, "dropper": s.dropper})
+    json!({"role": if s.server { "server" } else { "client" }, "driver_polled_before": s.driver_polled_before, "streams": s.streams.iter().map(|r| format!("{r:?}")).collect::<Vec<_>>(), "transport_close": s.transport_close, "driver_own_error": s.driver_own_error, "dropper": s.dropper, "drop_driver": s.drop_driver})
 }
 
 fn bad_bytes(r: Raise, server: bool) -> (Vec<u8>, bool) {
@@ -374,6 +376,24 @@ fn run_scn_inner(s: &Scn, t: &mut Tape, ctx: &mut Ctx) -> Verdict {
             None => return fail(format!("stream {i}: the racing poll is pending although its input was complete")),
         }
     }
+    if s.drop_driver {
+        // the application gives the connection up without polling the driver again: whatever closes the QUIC connection now
+        // (h3 does so when a server connection is dropped) uses the code of the error h3 has detected. QUIC keeps the first
+        // close, so that is the one judged.
+        let seen = matches!(driver_res, Some(Poll::Ready(_)));
+        drop(driver_obj.take());
+        let closes = net.close_calls(side);
+        if let ConnInfo::Local { code } = &e {
+            if closes.first().map(|c| c.code) != Some(*code) {
+                return fail(format!("h3 detected {e:?}, then the connection was dropped without another poll: the QUIC connection must be closed with that code, the transport saw {closes:?}"));
+            }
+        }
+        drop(stream_objs);
+        ctx.class("role_server");
+        ctx.class(if seen { "driver_dropped_after_it_saw_the_error" } else { "driver_dropped_before_it_saw_the_error" });
+        ctx.nontrivial(&(s.clone(), log.clone()));
+        return Ok(());
+    }
     // (1) driver
     let mut d = driver_obj.expect("driver");
     let dw = Waker::from(dflag.clone());
@@ -552,7 +572,10 @@ fn variants_opt(kmax: usize, all_droppers: bool) -> Vec<Scn> {
                         if internal {
                             st[0] = Raise::TransportInternal;
                         }
-                        v.push(Scn { server, driver_polled_before: polled, streams: st, transport_close: tc, driver_own_error: own, dropper });
+                        v.push(Scn { server, driver_polled_before: polled, streams: st.clone(), transport_close: tc, driver_own_error: own, dropper, drop_driver: false });
+                        if server && tc.is_none() && !own && !internal {
+                            v.push(Scn { server, driver_polled_before: polled, streams: st, transport_close: tc, driver_own_error: own, dropper, drop_driver: true });
+                        }
                     }
                 }
             }
@@ -764,7 +787,7 @@ fn exhaustive(ctx: &mut Ctx, shard: usize, nshards: usize) -> Verdict {
 
 fn parse_scn(v: &Value) -> Scn {
     let streams = v["streams"].as_array().map(|a| a.iter().map(|x| match x.as_str() { Some("Qpack") => Raise::Qpack, Some("FrameError") => Raise::FrameError, Some("Transport") => Raise::Transport, Some("TransportInternal") => Raise::TransportInternal, _ => Raise::FrameUnexpected }).collect()).unwrap_or_default();
-    Scn { server: v["role"].as_str() == Some("server"), driver_polled_before: v["driver_polled_before"].as_bool().unwrap_or(false), streams, transport_close: v["transport_close"].as_u64(), driver_own_error: v["driver_own_error"].as_bool().unwrap_or(false), dropper: v["dropper"].as_bool().unwrap_or(false) }
+    Scn { server: v["role"].as_str() == Some("server"), driver_polled_before: v["driver_polled_before"].as_bool().unwrap_or(false), streams, transport_close: v["transport_close"].as_u64(), driver_own_error: v["driver_own_error"].as_bool().unwrap_or(false), dropper: v["dropper"].as_bool().unwrap_or(false), drop_driver: v["drop_driver"].as_bool().unwrap_or(false) }
 }
 
 fn run_direct(d: &Value, ctx: &mut Ctx) -> Verdict {
